@@ -81,7 +81,7 @@ static std::string run_case(const Case& cs, Stat* st = nullptr) {
 // exceeds the cut-off; reciprocity; nothing else loaded.
 static const double TRI2D[5][6] = {{0, 0, 1, 0, 0.5, 0.87}, {0, 0, 1, 0, 0, 1}, {0, 0, 1, 0, -1, 1}, {0, 0, 1, 0, 0.5, 0.08}, {0, 0, 1.4, 0.2, 0.3, 0.6}};
 static const double HEIGHTS[6] = {-0.35, -0.15, -0.05, 0.05, 0.15, 0.35};
-static const int LAT = 13;
+static int LAT = 13; static double LAT_STEP = 0.3;   // thorough: 27 x 27 placements at half the spacing
 static std::string run_range(int tri, int rot, int cut, int ta, int tb, long* within, long* beyond, long* forces, int only = -1) {
     char buf[500]; const double cadh = CADH[cut], crep = CREP[cut], cmax = std::max(cadh, crep);
     // oblique orthonormal frame
@@ -94,7 +94,7 @@ static std::string run_range(int tri, int rot, int cut, int ta, int tb, long* wi
     std::vector<cell_ptr> cells = {A, B}; global_simulation_parameters sp = sc::make_sim_params("unused", 0.3); sp.contact_cutoff_adhesion_ = cadh; sp.contact_cutoff_repulsion_ = crep; Model model(sp);
     std::string err; int idx = -1;
     for (int ix = 0; ix < LAT && err.empty(); ix++) for (int iy = 0; iy < LAT && err.empty(); iy++) for (int ih = 0; ih < 6 && err.empty(); ih++) { idx++; if (only >= 0 && idx != only) continue;
-        const double x = -1.3 + 0.3 * ix, y = -1.3 + 0.3 * iy, h = HEIGHTS[ih], sgn = h > 0 ? 1.0 : -1.0; const vec3 p = P(x, y, h);
+        const double x = -1.3 + LAT_STEP * ix, y = -1.3 + LAT_STEP * iy, h = HEIGHTS[ih], sgn = h > 0 ? 1.0 : -1.0; const vec3 p = P(x, y, h);
         vec3 q[4] = {p, p + ez * (sgn * 0.3) + ex * 0.2, p + ez * (sgn * 0.3) + ex * (-0.1) + ey * 0.17, p + ez * (sgn * 0.3) + ex * (-0.1) + ey * (-0.17)};
         if (sgn < 0) std::swap(q[2], q[3]);   // keep the tetrahedron oriented outward
         for (int k = 0; k < 4; k++) A->node_lst_[k].pos_ = q[k];
@@ -177,8 +177,9 @@ static std::string run_self(int type, int cut, int ids = 0) {
 }
 
 static void explore(Result& R) {
+    if (R.args.thorough()) { LAT = 27; LAT_STEP = 0.15; }
     Stat st; long cases = 0, tissues = 0, nonzero = 0;
-    for (int ta = 0; ta < 5; ta++) for (int tb = 0; tb < 5; tb++) for (int d = 0; d < 7; d++) for (int b = 0; b < 3; b++) for (int s = 0; s < 3; s++) for (int cu = 0; cu < 2; cu++) for (int fc : {0, 5, 7}) for (int mb = 0; mb < 2; mb++) {
+    for (int ta = 0; ta < 5; ta++) for (int tb = 0; tb < 5; tb++) for (int d = 0; d < 7; d++) for (int b = 0; b < 3; b++) for (int s = 0; s < 3; s++) for (int cu = 0; cu < 2; cu++) for (int fc = 0; fc < 12; fc++) for (int mb = 0; mb < 2; mb++) { if (!R.args.thorough() && fc != 0 && fc != 5 && fc != 7) continue;
         Case c{ta, tb, d, b, s, cu, fc, mb}; cases++; std::string e = run_case(c, &st);
         if (!e.empty()) R.violation(clause_of(e) + "|types=" + std::to_string(ta) + ">" + std::to_string(tb), case_json(c) + ": " + e, "mode=pair\ncase=" + case_text(c) + "\n");
         if (cases % 4000 == 1) R.sample(case_json(c)); }
@@ -187,7 +188,7 @@ static void explore(Result& R) {
     for (int t = 0; t < 5; t++) for (int cu = 0; cu < 2; cu++) for (int ids = 0; ids < N_ID_SCHEMES; ids++) { tissues++; std::string e = run_self(t, cu, ids); if (!e.empty()) R.violation(clause_of(e), "single concave cell of type " + std::to_string(t) + " with id " + std::to_string(scheme_id(ids, 0)) + " at list position 0: " + e, "mode=self\ntype=" + std::to_string(t) + "\ncut=" + std::to_string(cu) + "\nids=" + std::to_string(ids) + "\n"); }
     long within = 0, beyond = 0, rforces = 0, lattices = 0;
     for (int tri = 0; tri < 5; tri++) for (int rot = 0; rot < 3; rot++) for (int cu = 0; cu < 2; cu++) for (int ta = 0; ta < 5; ta++) for (int tb = 0; tb < 5; tb++) { lattices++; std::string e = run_range(tri, rot, cu, ta, tb, &within, &beyond, &rforces);
-        if (!e.empty()) { int only = atoi(e.c_str() + e.rfind("lattice index ") + 14); R.violation(clause_of(e) + "|types=" + std::to_string(ta) + ">" + std::to_string(tb) + "|range-lattice", e, "mode=range\ntri=" + std::to_string(tri) + "\nrot=" + std::to_string(rot) + "\ncut=" + std::to_string(cu) + "\nta=" + std::to_string(ta) + "\ntb=" + std::to_string(tb) + "\nonly=" + std::to_string(only) + "\n"); } }
+        if (!e.empty()) { int only = atoi(e.c_str() + e.rfind("lattice index ") + 14); R.violation(clause_of(e) + "|types=" + std::to_string(ta) + ">" + std::to_string(tb) + "|range-lattice", e, "mode=range\ntri=" + std::to_string(tri) + "\nrot=" + std::to_string(rot) + "\ncut=" + std::to_string(cu) + "\nta=" + std::to_string(ta) + "\ntb=" + std::to_string(tb) + "\nonly=" + std::to_string(only) + "\nlat=" + std::to_string(LAT) + "\n"); } }
     R["range_lattice_placements_within_cutoff"] = within; R["range_lattice_placements_beyond_cutoff"] = beyond; R["range_lattice_placements_with_force"] = rforces; cases += within + beyond;
     if (R.violations.empty() && (!within || !beyond || !rforces)) R.internal_error = "range lattice vacuous";
     R["evaluations"] = cases + tissues; R["states"] = cases + tissues; R["transitions"] = cases + tissues; R["distinct_nontrivial"] = st.forces + st.couplings + nonzero + within; R["traces_validated_against_impl"] = cases + tissues;
@@ -199,7 +200,7 @@ static void explore(Result& R) {
 }
 static int replay(const Replay& rp, Result& R) { std::string e1, e2, m = rp.get("mode"); long nz = 0;
     if (m == "pair") { Case c; std::istringstream i(rp.get("case")); i >> c.ta >> c.tb >> c.depth >> c.base >> c.strength >> c.cut >> c.face >> c.meshb; e1 = run_case(c); e2 = run_case(c); printf("%s\n", case_json(c).c_str()); }
-    else if (m == "range") { long a = 0, b = 0, c = 0; auto go = [&] { return run_range((int)rp.geti("tri"), (int)rp.geti("rot"), (int)rp.geti("cut"), (int)rp.geti("ta"), (int)rp.geti("tb"), &a, &b, &c, (int)rp.geti("only", -1)); }; e1 = go(); e2 = go(); }
+    else if (m == "range") { if (rp.geti("lat", 13) == 27) { LAT = 27; LAT_STEP = 0.15; } long a = 0, b = 0, c = 0; auto go = [&] { return run_range((int)rp.geti("tri"), (int)rp.geti("rot"), (int)rp.geti("cut"), (int)rp.geti("ta"), (int)rp.geti("tb"), &a, &b, &c, (int)rp.geti("only", -1)); }; e1 = go(); e2 = go(); }
     else if (m == "tissue") { e1 = run_tissue((int)rp.geti("ox"), (int)rp.geti("cut"), (int)rp.geti("ta"), (int)rp.geti("tb"), &nz); e2 = run_tissue((int)rp.geti("ox"), (int)rp.geti("cut"), (int)rp.geti("ta"), (int)rp.geti("tb"), &nz); }
     else { int ids = (int)rp.geti("ids", 0); e1 = run_self((int)rp.geti("type"), (int)rp.geti("cut"), ids); e2 = run_self((int)rp.geti("type"), (int)rp.geti("cut"), ids); }
     if (e1 != e2) { printf("replay diverged\n"); return 0; } printf("%s\n", e1.c_str()); if (!e1.empty()) { R.violation(clause_of(e1), e1, ""); return 1; } return 0; }
